@@ -34,12 +34,12 @@ ASSUMPTIONS = ['ValLaws (equal_encoding is an equivalence, strict_equal implies 
                'then, in any order and number: calc deltas that name existing rows and whose first `before` equals the current '
                'cell up to encoding (SC2); RenameColumn/RenameTable whatever is pending; any lossless doc action (no formula '
                'column with values removed, no ReplaceTableData on a table with formula columns, no ModifyColumn changing the '
-               'type) while no calc delta is pending; the doModifyColumn triple ModifyColumn / conversion delta / per-column '
+               'type) that does not write, create or destroy a cell with a pending delta (SC1); the doModifyColumn triple ModifyColumn / conversion delta / per-column '
                'flush for a column without pending delta, type changes included, provided every converted row has its '
                'pre-ModifyColumn value as `before` and every other row survives the type round trip (Column.set under the new '
                'type keeps the encoding)',
-               'NOT proved: doc actions other than renames while calc deltas of OTHER columns are pending, removals of cells '
-               'that have a pending delta (front-inserted restores), data->formula ModifyColumn with a type change, lossy doc '
+               'NOT proved: removals (and other writes) of cells that have a pending delta (front-inserted restores), '
+               'doModifyColumn on a column that has a pending delta, data->formula ModifyColumn with a type change, lossy doc '
                'actions inside a bundle with their summary-side restores; these are covered by the event-trace tie and the '
                'implementation oracles only. The full statement is false of the faithful model: '
                'C01_refuted_to_formula_type_change, C01_refuted_front_restore_written_cell (each replayed on the engine: known '
@@ -51,15 +51,15 @@ TECHNIQUE = ('Coq proofs over a hand-written executable model of the action log 
              'oracles on the implementation')
 LEVEL_TEXT = ('Kernel-checked for all documents and all bundles that pass the computable side conditions bundle_ok3 (doc actions, '
               'calc deltas, renames after calc deltas, the ModifyColumn / conversion delta / per-column flush triples of '
-              'doModifyColumn incl. type changes, any lossless doc action while nothing is pending): replaying the undo list in reverse restores tables, schema, '
+              'doModifyColumn incl. type changes, any lossless doc action that keeps off the cells with a pending delta): replaying the undo list in reverse restores tables, schema, '
               'row ids and every cell up to encoding; every doc action kind is inverted by its own undo (exact exception '
               'sets); undo of whole histories bundle by bundle; well-formedness preserved. The full statement over arbitrary '
               'interleavings is refuted by two kernel-checked witnesses, which are real engine defects (known findings). '
               'The model is compared with the running engine on recorded event traces of random histories on every run, and '
               'the share of real traces that satisfy the hypotheses of the proved theorem is reported.')
 LEVEL_NOTE = ('kernel strength: the theorems are about the action log (docactions/action_summary/action_obj), not about '
-              'useractions.py. Stage 3 is proved for renames and for the per-column flushes of doModifyColumn; removals of cells '
-              'with a pending delta and doc actions while other columns are pending are _partial: validated by trace '
+              'useractions.py. Stage 3 is proved for renames, for the per-column flushes of doModifyColumn and for doc actions '
+              'that keep off the pending cells; removals of cells with a pending delta are _partial: validated by trace '
               'refinement and oracles only.')
 PROOF_TIMEOUT = 900
 
